@@ -43,7 +43,8 @@ def decide(run, texts, leg, shards):
         if "crash" in r:
             events.append({"q": [ord(c) for c in t], "ast": {"k": "err"}, "printed": [63], "same": False, "serde": "crash"})
         else:
-            events.append({"q": r["q"], "ast": r["ast"], "printed": r["printed"], "same": r["same"], "serde": r["serde"]})
+            events.append({"q": r["q"], "ast": r["ast"], "printed": r["printed"], "same": r["same"], "serde": r["serde"],
+                           "rprinted": r["rprinted"], "rsame": r["rsame"], "rok": r["rok"]})
     verdicts, st = evalkit.judge(events, "Trace_Print", shards=shards, tag="c11j" + leg)
     run.cov["states"] += st["distinct"]
     run.cov["transitions"] += st["generated"]
@@ -66,8 +67,11 @@ def decide(run, texts, leg, shards):
         if "SPECRT" in v and n["SPECRT"] <= 3:
             run.drift_note("Printer", "design-level: the transcribed printer does not round-trip the tree of %r" % texts[i])
         if "REJECT" in v:
-            run.violation({"engine": "print", "leg": leg, "q": texts[i], "printed": printed, "same": ev["same"], "serde": ev["serde"]},
-                          "the printed text parses back to the tree it was printed from", {"printed": printed, "code_reparse_same": ev["same"], "serde": ev["serde"]}, "print")
+            run.violation({"engine": "print", "leg": leg, "q": texts[i], "printed": printed, "same": ev["same"], "serde": ev["serde"],
+                           "structured": evalkit.s_of(ev.get("rprinted", [])), "structured_same": ev.get("rsame")},
+                          "the printed text and the structured token form parse back to the tree they were printed from",
+                          {"printed": printed, "code_reparse_same": ev["same"], "serde": ev["serde"],
+                           "structured": evalkit.s_of(ev.get("rprinted", [])), "structured_reparse_same": ev.get("rsame")}, "print")
     log("[C11] leg %s: %d texts %s %.1fs" % (leg, len(texts), n, time.time() - t0))
 
 
